@@ -113,7 +113,15 @@ func (c *Ctx) xlAccessor(name string) string {
 	if !ok || len(r.Results) != 1 {
 		return ""
 	}
-	s, ok := r.Results[0].(*ast.SelectorExpr)
+	res := r.Results[0]
+	for {
+		p, ok := res.(*ast.ParenExpr)
+		if !ok {
+			break
+		}
+		res = p.X
+	}
+	s, ok := res.(*ast.SelectorExpr)
 	if !ok {
 		return ""
 	}
